@@ -23,6 +23,7 @@ UNIT_MODES = {
     'ops_arith_i': ['dbg', 'rel'],
     'ops_arith_u': ['dbg', 'rel'],
     'ops_core': ['dbg', 'rel'],
+    'floatcast': ['dbg', 'rel'],
 }
 
 # property -> verus units owned by the property (dependencies are added automatically) and the
